@@ -824,6 +824,7 @@ fn case_c(src: &mut Gen, idx: u64) -> Eval {
     let mut want: BTreeMap<u16, String> = BTreeMap::new();
     let mut next: u32 = 0; // lowest code that is not adjacent to anything placed so far
     let mut feats: Vec<String> = Vec::new();
+    let mut seq_texts = false;
     for _ in 0..n_items {
         let gap_kind = src.pick_w(3, 2);
         let gap_val = src.draw(30000);
@@ -837,7 +838,19 @@ fn case_c(src: &mut Gen, idx: u64) -> Eval {
         if start > 65535 { continue; }
         let run_len = if run { 2 + match len_kind { 0 => len_val % 6, _ => len_val } } else { 1 };
         let last = (start + run_len - 1).min(65535);
-        for c in start..=last { want.insert(c as u16, hash_text(tseed, c - start, multi, supp)); }
+        // every third run maps consecutive codes to consecutive characters (identity and offset maps of real files): one BMP
+        // character counting up from a base (the code itself now and then), after a constant prefix when `multi`
+        if run && tseed % 3 == 0 {
+            let n = last - start + 1;
+            let mut base = if tseed % 12 == 0 { start.max(0x20) } else { 0x20 + (tseed >> 4) % 0xD7C0 };
+            if base + n > 0xD800 { base = 0xD800 - n; }
+            let prefix = if multi { hash_text(tseed, 0, false, supp) } else { String::new() };
+            for c in start..=last { let mut t = prefix.clone(); t.push(char::from_u32(base + (c - start)).unwrap()); want.insert(c as u16, t); }
+            feats.push("items:run-sequential-texts".into());
+            seq_texts = true;
+        } else {
+            for c in start..=last { want.insert(c as u16, hash_text(tseed, c - start, multi, supp)); }
+        }
         feats.push(if last > start { "items:run".into() } else { "items:single".into() });
         next = last + 2;
     }
@@ -845,6 +858,7 @@ fn case_c(src: &mut Gen, idx: u64) -> Eval {
     // labels describe the case as generated
     if want.contains_key(&0xFFFF) { src.label("code-ffff"); }
     if want.keys().any(|k| *k < 0xFFFF && want.contains_key(&(k + 1))) { src.label("consecutive-codes"); }
+    if seq_texts { src.label("sequential-texts"); }
     text_labels(src, &want);
 
     let map = if idx % 2 == 0 {
@@ -1098,7 +1112,7 @@ fn selftest() -> Result<(), String> {
 }
 
 pub fn run(run: &Run) {
-    run.rule("tape-generated cases, 4 parts. (a) CID fonts: /W = random permutation of disjoint non-empty groups (list form c [w…] and range form c1 c2 w, codes 0..65535, group sizes 1..65536, integer and real widths 0..3000), /DW given or absent, /W and list sub-arrays direct or indirect, CIDFontType0/2, queried through the Type0 font of a generated document read by the real reader (all four configurations) and through fonts built from public struct fields; oracle: Widths::get(c) for EVERY c in 0..=65535 plus 65536, 65537, 70000, 2^20, u32::MAX, usize::MAX equals array value / default. (b) simple fonts Type1/TrueType: FirstChar 0..255, Widths length 0..300, LastChar consistent, optional FontDescriptor with/without MissingWidth; oracle for every code 0..=1023 + far codes: table entry inside, MissingWidth (default 0) outside. (c) maps u16→non-empty Unicode strings (BMP, supplementary planes, multi-character; isolated codes and runs of consecutive codes) → write_cmap → Font::to_unicode (Stream::new and via a document stream, plain or Flate); oracle: same map. (d) conformant ToUnicode CMap texts (codespacerange, counted bfchar/bfrange blocks ≤100, string-form ranges without last-byte overflow, array-form ranges, 1-/2-byte/mixed codes, surrogate pairs, multi-char targets, comments, any entry/section order, EOL LF/CRLF/CR, hex case/inner white space); oracle: map per specification (independent strict reader, must agree with the generator's bookkeeping). distinct_nontrivial = distinct non-empty cases per part (hash of the case content). Widths inside a list group and texts inside an entry are a hash of one seed draw. Failing cases are minimised on the real code (label knock-out + tape shrinking); signature = part | labels of the minimised case | outcome class.");
+    run.rule("tape-generated cases, 4 parts. (a) CID fonts: /W = random permutation of disjoint non-empty groups (list form c [w…] and range form c1 c2 w, codes 0..65535, group sizes 1..65536, integer and real widths 0..3000), /DW given or absent, /W and list sub-arrays direct or indirect, CIDFontType0/2, queried through the Type0 font of a generated document read by the real reader (all four configurations) and through fonts built from public struct fields; oracle: Widths::get(c) for EVERY c in 0..=65535 plus 65536, 65537, 70000, 2^20, u32::MAX, usize::MAX equals array value / default. (b) simple fonts Type1/TrueType: FirstChar 0..255, Widths length 0..300, LastChar consistent, optional FontDescriptor with/without MissingWidth; oracle for every code 0..=1023 + far codes: table entry inside, MissingWidth (default 0) outside. (c) maps u16→non-empty Unicode strings (BMP, supplementary planes, multi-character; isolated codes and runs of consecutive codes, every third run with texts that count up character by character from any base) → write_cmap → Font::to_unicode (Stream::new and via a document stream, plain or Flate); oracle: same map. (d) conformant ToUnicode CMap texts (codespacerange, counted bfchar/bfrange blocks ≤100, string-form ranges without last-byte overflow, array-form ranges, 1-/2-byte/mixed codes, surrogate pairs, multi-char targets, comments, any entry/section order, EOL LF/CRLF/CR, hex case/inner white space); oracle: map per specification (independent strict reader, must agree with the generator's bookkeeping). distinct_nontrivial = distinct non-empty cases per part (hash of the case content). Widths inside a list group and texts inside an entry are a hash of one seed draw. Failing cases are minimised on the real code (label knock-out + tape shrinking); signature = part | labels of the minimised case | outcome class.");
     run.assume("reference /W interpreter and CMap reader in harness/src/refimpl/c19_ref.rs implement PDF 32000-1 §9.7.4.3 / §9.10.3 (self-tested on hand-verified examples at start-up)");
     run.assume("real widths are compared with a tolerance of 4e-7 relative (decimal text → f32)");
     run.assume("Font::widths returning Ok(None) for a Type1/TrueType font that has FirstChar and Widths counts as a failure; MMType1/Type3 are outside the generated domain");
